@@ -500,6 +500,11 @@ fn unawait<'a>(env: &Env, e: &'a syn::Expr, awaits: &mut Vec<String>) -> &'a syn
     strip(e)
 }
 
+/// calling through the boxed / shared clock function: `(self.time_fn)()` and `(*self.time_fn)()` are one call
+fn clock_text(c: &str) -> String {
+    c.replace("(self.time_fn)()", "(*self.time_fn)()")
+}
+
 fn poll_loop(name: &str, f: &syn::ImplItemFn, cont: &str, done: &str, helpers: &std::collections::BTreeMap<String, Helper>) -> R<PollLoop> {
     let item = format!("{TY}::{name}");
     let item = item.as_str();
@@ -515,6 +520,24 @@ fn poll_loop(name: &str, f: &syn::ImplItemFn, cont: &str, done: &str, helpers: &
                 }
             }
         }
+    }
+    // the loop is the LAST expression of the function (or of its async block): `return E` inside it is `break E`
+    if let Some(syn::Stmt::Expr(syn::Expr::Loop(l), None)) = stmts.last_mut() {
+        struct RetToBreak;
+        impl syn::visit_mut::VisitMut for RetToBreak {
+            fn visit_expr_mut(&mut self, e: &mut syn::Expr) {
+                match e {
+                    syn::Expr::Closure(_) | syn::Expr::Async(_) | syn::Expr::Loop(_) | syn::Expr::While(_) | syn::Expr::ForLoop(_) => {}
+                    syn::Expr::Return(r) => {
+                        let inner = r.expr.take();
+                        *e = syn::Expr::Break(syn::ExprBreak { attrs: vec![], break_token: Default::default(), label: None, expr: inner });
+                    }
+                    _ => syn::visit_mut::visit_expr_mut(self, e),
+                }
+            }
+            fn visit_item_mut(&mut self, _i: &mut syn::Item) {}
+        }
+        syn::visit_mut::VisitMut::visit_block_mut(&mut RetToBreak, &mut l.body);
     }
     let n = stmts.len();
     if n == 0 {
@@ -565,7 +588,7 @@ fn poll_loop(name: &str, f: &syn::ImplItemFn, cont: &str, done: &str, helpers: &
             }
             syn::Stmt::Local(l) => match plain_let(l) {
                 Some((nm, false, init)) => {
-                    let e = canon(&env.resolve(unawait(&env, init, &mut awaits)));
+                    let e = clock_text(&canon(&env.resolve(unawait(&env, init, &mut awaits))));
                     let v = fresh(&mut env, &nm);
                     body.push(LoopStmt::Bind(v, e));
                 }
@@ -585,8 +608,21 @@ fn poll_loop(name: &str, f: &syn::ImplItemFn, cont: &str, done: &str, helpers: &
                         Some(x) => x,
                         None => return fail(FILE, item, "`if A <op> B { break E }` without `else`"),
                     };
+                    // a clock reading made inside the condition is a reading bound to a name first
+                    let mut sides = Vec::new();
+                    for x in [&b.left, &b.right] {
+                        let c = clock_text(&canon(&env.resolve(x)));
+                        if c.contains("time_fn") && ident_of(strip(x)).is_none() {
+                            let l = fresh(&mut env, "__clock_reading");
+                            body.push(LoopStmt::Bind(l.clone(), c));
+                            sides.push(l);
+                        } else {
+                            sides.push(c);
+                        }
+                    }
+                    let (l0, r0) = (sides[0].clone(), sides[1].clone());
                     // `a < b` is recorded as `b > a` (and `<=` as `>=`)
-                    let (mut lhs, mut op, mut rhs) = (canon(&env.resolve(&b.left)), canon(&b.op), canon(&env.resolve(&b.right)));
+                    let (mut lhs, mut op, mut rhs) = (l0, canon(&b.op), r0);
                     if op == "<" || op == "<=" {
                         std::mem::swap(&mut lhs, &mut rhs);
                         op = if op == "<" { ">".into() } else { ">=".into() };
